@@ -34,6 +34,9 @@ type MemMapFs struct {
 	mu   sync.RWMutex
 	data map[string]*mem.FileData
 	init sync.Once
+	// held lists the directories whose mutexes the running Rename holds (see Rename); it is
+	// only used while mu is write-locked
+	held []*mem.FileData
 }
 
 func NewMemMapFs() Fs {
@@ -99,10 +102,22 @@ func (m *MemMapFs) unRegisterWithParent(fileName string) error {
 		log.Panic("parent of ", f.Name(), " is nil")
 	}
 
-	parent.Lock()
-	defer parent.Unlock()
+	if !m.holdsDir(parent) {
+		parent.Lock()
+		defer parent.Unlock()
+	}
 	mem.RemoveFromMemDir(parent, f)
 	return nil
+}
+
+// holdsDir reports whether the running Rename already holds the mutex of dir.
+func (m *MemMapFs) holdsDir(dir *mem.FileData) bool {
+	for _, d := range m.held {
+		if d == dir {
+			return true
+		}
+	}
+	return false
 }
 
 func (m *MemMapFs) findParent(f *mem.FileData) *mem.FileData {
@@ -124,10 +139,15 @@ func (m *MemMapFs) findDescendants(name string) []*mem.FileData {
 		}
 	}
 
+	// by depth, then by name: the children of one directory are adjacent
 	sort.Slice(descendants, func(i, j int) bool {
-		cur := len(strings.Split(descendants[i].Name(), FilePathSeparator))
-		next := len(strings.Split(descendants[j].Name(), FilePathSeparator))
-		return cur < next
+		a, b := descendants[i].Name(), descendants[j].Name()
+		cur := len(strings.Split(a, FilePathSeparator))
+		next := len(strings.Split(b, FilePathSeparator))
+		if cur != next {
+			return cur < next
+		}
+		return a < b
 	})
 
 	return descendants
@@ -152,8 +172,10 @@ func (m *MemMapFs) registerWithParent(f *mem.FileData, perm os.FileMode) {
 		}
 	}
 
-	parent.Lock()
-	defer parent.Unlock()
+	if !m.holdsDir(parent) {
+		parent.Lock()
+		defer parent.Unlock()
+	}
 	mem.InitializeDir(parent)
 	mem.AddToMemDir(parent, f)
 }
@@ -381,6 +403,33 @@ func (m *MemMapFs) Rename(oldname, newname string) error {
 		if m.lockfreeBelowFile(newname) {
 			return &os.LinkError{Op: "rename", Old: oldname, New: newname, Err: syscall.ENOTDIR}
 		}
+		// A handle on a directory lists it under the directory's mutex only, not under mu.
+		// So that no listing falls between the two halves of the move, the directory the
+		// entry leaves and the one it enters stay locked, both at once, from before the
+		// removal until after the insertion; registerWithParent and unRegisterWithParent do
+		// not lock a directory that is held here.  Lock order: mu (write), then directory
+		// mutexes, then the mutex of the entry that is renamed (ChangeFileName).  Only Rename
+		// holds more than one file mutex at a time, and it does so under mu write-locked:
+		// Renames are serialised, every other holder of a file mutex releases it without
+		// waiting for another lock, so the order among directory mutexes does not matter.
+		// (An entry renamed into its own subtree is found under both names while it moves:
+		// no directory is held for such a rename.)
+		hold := !strings.HasPrefix(newname, oldname+FilePathSeparator)
+		var pOld, pNew *mem.FileData
+		if hold {
+			pOld, pNew = m.renameParents(oldname, newname)
+		}
+		if pOld != nil {
+			pOld.Lock()
+			defer pOld.Unlock()
+			m.held = append(m.held, pOld)
+		}
+		if pNew != nil {
+			pNew.Lock()
+			defer pNew.Unlock()
+			m.held = append(m.held, pNew)
+		}
+		defer func() { m.held = nil }()
 		err := m.unRegisterWithParent(oldname)
 		if err != nil {
 			return err
@@ -390,7 +439,7 @@ func (m *MemMapFs) Rename(oldname, newname string) error {
 		mem.ChangeFileName(fileData, newname)
 		m.getData()[newname] = fileData
 
-		err = m.renameDescendants(oldname, newname)
+		err = m.renameDescendants(oldname, newname, hold)
 		if err != nil {
 			return err
 		}
@@ -404,26 +453,69 @@ func (m *MemMapFs) Rename(oldname, newname string) error {
 	return nil
 }
 
-func (m *MemMapFs) renameDescendants(oldname, newname string) error {
+// renameParents returns the directories that Rename keeps locked across the move: the parent
+// of oldname and the parent of newname (nil when it is the same directory), as far as they
+// exist and are not the renamed entry itself (the root is its own parent).  The directories of
+// the renamed subtree are locked one at a time by renameSiblings.
+func (m *MemMapFs) renameParents(oldname, newname string) (pOld, pNew *mem.FileData) {
+	if dir := filepath.Dir(oldname); dir != oldname {
+		pOld, _ = m.lockfreeOpen(dir)
+	}
+	if dir := filepath.Dir(newname); dir != oldname && dir != newname {
+		pNew, _ = m.lockfreeOpen(dir)
+	}
+	if pNew == pOld {
+		pNew = nil
+	}
+	return pOld, pNew
+}
+
+func (m *MemMapFs) renameDescendants(oldname, newname string, hold bool) error {
 	descendants := m.findDescendants(oldname)
 	removes := make([]string, 0, len(descendants))
-	for _, desc := range descendants {
+	for i := 0; i < len(descendants); {
+		// the children of one directory are adjacent (findDescendants)
+		dir := filepath.Dir(descendants[i].Name())
+		j := i + 1
+		for j < len(descendants) && filepath.Dir(descendants[j].Name()) == dir {
+			j++
+		}
+		err := m.renameSiblings(descendants[i:j], oldname, newname, hold, &removes)
+		if err != nil {
+			return err
+		}
+		i = j
+	}
+	for _, r := range removes {
+		delete(m.getData(), r)
+	}
+
+	return nil
+}
+
+// renameSiblings gives the children of ONE directory their new names under a single hold of
+// that directory's mutex (if hold is set): a listing through a handle on the directory shows
+// all of them, before or after, never a part of them.
+func (m *MemMapFs) renameSiblings(siblings []*mem.FileData, oldname, newname string, hold bool, removes *[]string) error {
+	if dir := m.findParent(siblings[0]); hold && dir != nil && !m.holdsDir(dir) {
+		dir.Lock()
+		defer dir.Unlock()
+		m.held = append(m.held, dir)
+		defer func() { m.held = m.held[:len(m.held)-1] }()
+	}
+	for _, desc := range siblings {
 		descNewName := strings.Replace(desc.Name(), oldname, newname, 1)
 		err := m.unRegisterWithParent(desc.Name())
 		if err != nil {
 			return err
 		}
 
-		removes = append(removes, desc.Name())
+		*removes = append(*removes, desc.Name())
 		mem.ChangeFileName(desc, descNewName)
 		m.getData()[descNewName] = desc
 
 		m.registerWithParent(desc, 0)
 	}
-	for _, r := range removes {
-		delete(m.getData(), r)
-	}
-
 	return nil
 }
 
